@@ -767,6 +767,8 @@ func c15run(c *runner.Ctx) (res runner.Result) {
 		if err == nil {
 			s.noteAccepted(p.Cols, b, cells)
 			res.Count("writes_before_restart", 1)
+		} else {
+			res.Count("writes_before_restart_rejected", 1)
 		}
 	}
 
